@@ -278,20 +278,29 @@ private:
 #else
   static bool IsValidKeyNonRegEx(nostd::string_view key)
   {
-    if (key.empty() || key.size() > kKeyMaxSize || !IsLowerCaseAlphaOrDigit(key[0]))
+    // Either a simple key of up to 256 characters, or a tenant id of up to 241 characters and a
+    // system id of up to 14 characters joined by '@' (same limits as the regex variant).
+    const auto at = key.find('@');
+    if (at == nostd::string_view::npos)
+    {
+      return IsValidKeyPartNonRegEx(key, kKeyMaxSize);
+    }
+    return IsValidKeyPartNonRegEx(key.substr(0, at), 241) &&
+           IsValidKeyPartNonRegEx(key.substr(at + 1), 14);
+  }
+
+  // An identifier: begins with a lowercase letter or a digit, contains only lowercase letters,
+  // digits, '_', '-', '*' and '/' (in particular no further '@').
+  static bool IsValidKeyPartNonRegEx(nostd::string_view part, size_t max_size)
+  {
+    if (part.empty() || part.size() > max_size || !IsLowerCaseAlphaOrDigit(part[0]))
     {
       return false;
     }
 
-    int ats = 0;
-
-    for (const char c : key)
+    for (const char c : part)
     {
-      if (!IsLowerCaseAlphaOrDigit(c) && c != '_' && c != '-' && c != '@' && c != '*' && c != '/')
-      {
-        return false;
-      }
-      if ((c == '@') && (++ats > 1))
+      if (!IsLowerCaseAlphaOrDigit(c) && c != '_' && c != '-' && c != '*' && c != '/')
       {
         return false;
       }
